@@ -198,6 +198,19 @@ Section IterLog.
   Qed.
 End IterLog.
 
+(** counted loops: an invariant [P k] that every continuing iteration k < n re-establishes as [P (k+1)] *)
+Lemma reach_for {S R} (f : S -> res (lstep S R)) (P : nat -> S -> Prop) (n : nat) :
+  (forall k s, (k < n)%nat -> P k s -> exists s', f s = Ok (LCont s') /\ P (Datatypes.S k) s') ->
+  forall d k s, (k + d = n)%nat -> P k s ->
+  exists sN, P n sN /\ forall r, f sN = Ok (LStop r) -> reach f d s r.
+Proof.
+  intros Hstep. induction d as [|d IH]; intros k s Hk HP.
+  - replace k with n in HP by lia. exists s. split; [assumption|]. intros r Hr. now constructor.
+  - destruct (Hstep k s ltac:(lia) HP) as (s' & Hf & HP').
+    destruct (IH (Datatypes.S k) s' ltac:(lia) HP') as (sN & HN & Hr).
+    exists sN. split; [assumption|]. intros r Hs. econstructor; [exact Hf|]. now apply Hr.
+Qed.
+
 Lemma exec_Sloop_reach call lf c body step e m k o :
   reach (loop_step zops c (exec zops call lf body) (exec zops call lf step)) k (e, m) o ->
   (k < 2 ^ lf)%nat ->
@@ -232,6 +245,51 @@ Lemma exec_Sseq {V} (ops : vops V) call lf s1 s2 e m :
    match o with ONormal e' m' => exec ops call lf s2 e' m' | _ => Ok o end).
 Proof. reflexivity. Qed.
 
+Lemma exec_Sloop {V} (ops : vops V) call lf c body step e m :
+  exec ops call lf (Sloop c body step) e m =
+  (do r <- iter_log lf (loop_step ops c (exec ops call lf body) (exec ops call lf step)) (e, m);
+   match r with LStop o => Ok o | LCont _ => OutOfFuel end).
+Proof. reflexivity. Qed.
+
+Lemma loop_step_Some {V} (ops : vops V) c xb xs e m :
+  loop_step ops (Some c) xb xs (e, m) =
+  (do go <- (do v <- eval ops e m c; do z <- ctl ops v; Ok (negb (z =? 0)));
+   if go then
+     do o <- xb e m;
+     match o with
+     | ONormal e2 m2 | OContinue e2 m2 =>
+         do o2 <- xs e2 m2;
+         match o2 with
+         | ONormal e3 m3 => Ok (LCont (e3, m3))
+         | _ => UB "control transfer out of a for-step"
+         end
+     | OBreak e2 m2 => Ok (LStop (ONormal e2 m2))
+     | OReturn v m2 => Ok (LStop (OReturn v m2))
+     end
+   else Ok (LStop (ONormal e m))).
+Proof. reflexivity. Qed.
+
+Lemma loop_step_None {V} (ops : vops V) xb xs e m :
+  loop_step ops None xb xs (e, m) =
+  (do o <- xb e m;
+   match o with
+   | ONormal e2 m2 | OContinue e2 m2 =>
+       do o2 <- xs e2 m2;
+       match o2 with
+       | ONormal e3 m3 => Ok (LCont (e3, m3))
+       | _ => UB "control transfer out of a for-step"
+       end
+   | OBreak e2 m2 => Ok (LStop (ONormal e2 m2))
+   | OReturn v m2 => Ok (LStop (OReturn v m2))
+   end).
+Proof. reflexivity. Qed.
+
+Lemma exec_Sif {V} (ops : vops V) call lf c s1 s2 e m :
+  exec ops call lf (Sif c s1 s2) e m =
+  (do b <- (do v <- eval ops e m c; do z <- ctl ops v; Ok (negb (z =? 0)));
+   if b then exec ops call lf s1 e m else exec ops call lf s2 e m).
+Proof. reflexivity. Qed.
+
 (** * Tactics *)
 (** unfold the interpreter; integer arithmetic, [in_range], [convert], [load], [store] and calls stay folded *)
 Ltac cm_eval :=
@@ -248,3 +306,21 @@ Ltac cm_if tac :=
       first [ let H := fresh "Hc" in assert (H : c = true) by tac; rewrite H; clear H
             | let H := fresh "Hc" in assert (H : c = false) by tac; rewrite H; clear H ]
   end.
+
+(** Statement-wise evaluation.  [cm_split] exposes the first statement of a sequence (or the test of an [if])
+    and hides the rest behind an opaque variable, so that every [cbn] works on a small term;
+    [cm_release] brings the continuation back once it is applied to the state reached. *)
+Ltac cm_split :=
+  match goal with
+  | |- context [exec zops ?c ?lf (Sseq ?s1 ?s2) ?e ?m] =>
+      rewrite (exec_Sseq zops c lf s1 s2 e m);
+      let K := fresh "K" in let HK := fresh "HK" in remember (exec zops c lf s2) as K eqn:HK
+  | |- context [exec zops ?c ?lf (Sif ?b ?s1 ?s2) ?e ?m] =>
+      rewrite (exec_Sif zops c lf b s1 s2 e m);
+      let K1 := fresh "K" in let HK1 := fresh "HK" in remember (exec zops c lf s1) as K1 eqn:HK1;
+      let K2 := fresh "K" in let HK2 := fresh "HK" in remember (exec zops c lf s2) as K2 eqn:HK2
+  end.
+Ltac cm_release :=
+  repeat match goal with
+         | HK : ?K = exec _ _ _ _ |- context [?K ?e ?m] => subst K
+         end.
